@@ -134,7 +134,7 @@ func (f *xorTreeRepair) checkPage() {
 		// fixing the iblt tree is a copy of the code above (but with ibltTree instead of xorTree).
 
 		return nil
-	})
+	}, stoabs.WithWriteLock()) // without it, a Redis store does not lock at all and this runs concurrently with state.Add
 	if err != nil {
 		log.Logger().WithError(err).Warnf("Failed to run xorTreeRepair check.")
 	}
